@@ -212,6 +212,11 @@ def run(ctx):
                 # a leak attributed to one Query::new call: its outcome (ok / Syntax / Field / …) and the history kind
                 fp["leak_in"] = "Query::new:" + parts[4]
                 fp["hkind"] = kv.get("hkind", "?")
+            if fp["clause"] == "assertion-or-crash":
+                # only queries of ONE shape are compiled in a child process (a group of nothing but predicates that
+                # takes a quantifier / capture / field); site = the function named by the assertion message
+                fp["site"] = parts[-2] if len(parts) > 3 else "?"
+                fp["shape"] = "empty-pattern-with-suffix"
             if fp["clause"] == "out-of-bounds-read":
                 # site = the function whose read is out of bounds; access = oob | uaf (guard page of a live / freed block)
                 fp["site"] = parts[2] if len(parts) > 2 else "?"
